@@ -48,6 +48,11 @@ theorem anchors_full :
     labelAnchorList = .full ∧ labelAnchorScalar = .full ∧ tagAnchor = .full ∧ nameAnchor = .full :=
   ⟨rfl, rfl, rfl, rfl⟩
 
+/-- Every method of fim.user that writes Name / Labels / Tags / boot script / a JSON blob straight into the graph (instead of
+through a sliver's setters) first hands the same value to the validating property setter. The list is read from the AST
+of fim/user/*.py on every run; a writer that skips the setter (e.g. `self._name = new_name` in `rename`) makes this fail. -/
+theorem raw_writers_guarded : ∀ w ∈ rawWriters, w.2.2 ≠ "unguarded" := by decide
+
 /-- every range-checked label field also has a format (regex) - so `int()` only ever sees what the regex let through -/
 theorem range_fields_have_regex : ∀ kc ∈ labelRange, (labelRegex.lookup kc.1).isSome = true := by
   decide
